@@ -7,100 +7,7 @@ verus! {
 //@@ include automaton.inc
 //@@ include lemmas_scan.inc
 
-//@@ item src/automaton.rs | pub struct FindIter<'a, 'h, A>
-//@@ sigsub 1 /pub struct/ => struct
-//@@ end
-
-// one search with the iterator's current input, as a relation on the result
-spec fn search_rel<A: AutomatonS>(aut: &A, input: Input<'_>, r: Option<Match>) -> bool {
-    try_find_post(aut, &input, Ok(r))
-}
-
-spec fn with_start<'h>(input: Input<'h>, start: usize) -> Input<'h> {
-    Input { span: Span { start: start, end: input.span.end }, ..input }
-}
-
-// C01/C02/C09: one step of the non-overlapping iterator, taken from the property statement:
-// repeat the search from the end of the previous match; an empty match is never yielded at
-// the offset where the previous match ended (the search is repeated one byte later instead).
-spec fn iter_step<A: AutomatonS>(aut: &A, old_input: Input<'_>, old_last: Option<usize>,
-                                 new_input: Input<'_>, new_last: Option<usize>, r: Option<Match>) -> bool {
-    exists|r1: Option<Match>| #[trigger] search_rel(aut, old_input, r1) && (match r1 {
-        None => r is None,
-        Some(m1) =>
-            if m1.span.start >= m1.span.end && old_last == Some(m1.span.end) {
-                exists|r2: Option<Match>| #[trigger] search_rel(aut, with_start(old_input, (old_input.span.start + 1) as usize), r2)
-                    && (match r2 {
-                        None => r is None,
-                        Some(m2) => r == Some(m2) && new_input == with_start(old_input, m2.span.end) && new_last == Some(m2.span.end),
-                    })
-            } else {
-                r == Some(m1) && new_input == with_start(old_input, m1.span.end) && new_last == Some(m1.span.end)
-            },
-    })
-}
-
-impl<'a, 'h, A: AutomatonS> FindIter<'a, 'h, A> {
-    spec fn inv(&self) -> bool {
-        &&& aut_wf(self.aut)
-        &&& self.input.wf()
-        // C13: an iterator that was constructed never fails later
-        &&& self.aut.start_s(self.input.anchored) is Some
-    }
-
-//@@ fn src/automaton.rs | fn new( | within=impl<'a, 'h, A: Automaton> FindIter<'a, 'h, A>
-//@@ header
-        requires aut_wf(aut), input.wf(),
-        ensures
-            (res is Ok) == (aut.start_s(input.anchored) is Some),
-            res is Ok ==> res->Ok_0.aut == aut && res->Ok_0.input == input
-                && res->Ok_0.last_match_end is None && res->Ok_0.inv(),
-//@@ end
-
-//@@ fn src/automaton.rs | fn search(&self) -> Option<Match> | res=r
-//@@ header
-        requires self.inv(),
-        ensures search_rel(self.aut, self.input, r),
-//@@ end
-
-//@@ fn src/automaton.rs | fn handle_overlapping_empty_match( | res=r
-//@@ header
-        requires
-            old(self).inv(), m.span.start >= m.span.end,
-            old(self).input.span.start <= old(self).input.span.end,
-        ensures
-            final(self).inv(), final(self).aut == old(self).aut,
-            final(self).last_match_end == old(self).last_match_end,
-            final(self).input.span.end == old(self).input.span.end,
-            if Some(m.span.end) == old(self).last_match_end {
-                &&& final(self).input == with_start(old(self).input, (old(self).input.span.start + 1) as usize)
-                &&& search_rel(final(self).aut, final(self).input, r)
-                &&& (r is Some ==> final(self).input.span.start <= final(self).input.span.end
-                        && match_in(final(self).aut, r->Some_0, final(self).input.span.start as int, final(self).input.span.end as int))
-            } else {
-                r == Some(m) && final(self).input == old(self).input
-            },
-//@@ after /m = self\.search\(\)\?;/
-            proof { lemma_try_find_bounds(self.aut, &self.input, Some(m)); }
-//@@ end
-
-// `Iterator::next` of FindIter (the trait impl header is not reproduced: Verus has no spec for
-// a user impl of core::iter::Iterator; the method body is the one from /repo)
-//@@ fn src/automaton.rs | fn next(&mut self) -> Option<Match> | within=impl<'a, 'h, A: Automaton> Iterator for FindIter<'a, 'h, A> | res=r
-//@@ header
-        requires old(self).inv(),
-        ensures
-            final(self).inv(), final(self).aut == old(self).aut,
-            iter_step(old(self).aut, old(self).input, old(self).last_match_end,
-                      final(self).input, final(self).last_match_end, r),
-            // C10/C15: yielded matches lie in the original span and the iterator advances
-            r is Some ==> old(self).input.span.start <= r->Some_0.span.start <= r->Some_0.span.end
-                        <= old(self).input.span.end && r->Some_0.pattern.0 < old(self).aut.npat_s(),
-            r is None ==> final(self).input.span.end == old(self).input.span.end,
-//@@ after /let mut m = self\.search\(\)\?;/
-        proof { lemma_try_find_bounds(self.aut, &self.input, Some(m)); }
-//@@ end
-}
+//@@ include finditer.inc STUB=0
 
 } // verus!
 fn main() {}
